@@ -67,6 +67,9 @@ package inprocgrpc
 //@   loop loop#1 invariant[C08,C06] one_copy_per_response: (gotResponse <==> calls("inprocgrpc.Cloner.Copy") == 1) && calls("inprocgrpc.Cloner.Copy") <= 1 && calls("go") == 1 && calls("context.WithCancel") == 1 && !called("context.CancelFunc") && !called("internal.TranslateContextError")
 //@   loop loop#1 invariant[C02,C01] a_failed_copy_ends_the_loop: called("inprocgrpc.Cloner.Copy") ==> lastresult("inprocgrpc.Cloner.Copy") == nil
 //@   borrowed[C06] req until closed(ch) || recv_n(ch) >= 1
+//@   assert_call[C06,C01] inprocgrpc.Cloner.Clone : the_request_is_copied_before_the_server_side_starts: arg1 == req && !called("go")
+//@   ensures[C06,C02] a_request_that_cannot_be_copied_is_an_error_and_runs_nothing: called("inprocgrpc.Cloner.Clone") && lastresult("inprocgrpc.Cloner.Clone", 1) != nil ==> result == lastresult("inprocgrpc.Cloner.Clone", 1) && !called("go")
+//@   ensures[C06] the_server_side_starts_only_with_a_copy_of_the_request: called("go") ==> calls("inprocgrpc.Cloner.Clone") == 1 && lastresult("inprocgrpc.Cloner.Clone", 1) == nil
 //@   borrowed[C06] resp
 //@   ensures[C08,C06] success_means_exactly_one_response_was_copied: result == nil && called("go") ==> calls("inprocgrpc.Cloner.Copy") == 1
 //@   assert_call[C06,C01] inprocgrpc.Cloner.Copy : response_is_copied_into_the_callers_message: arg1 == resp && arg2 == r.data && r.data != nil
@@ -423,7 +426,7 @@ package inprocgrpc
 // the handler's message through the channel's cloner (never hands over the request itself).
 //@ closure (*Channel).Invoke.codec
 //@   ensures[C06,C01] copies_the_request_once: calls("inprocgrpc.Cloner.Copy") == 1 && result == lastresult("inprocgrpc.Cloner.Copy")
-//@   assert_call[C06,C01] inprocgrpc.Cloner.Copy : request_into_the_handlers_message: arg0 == cloner && arg1 == out && arg2 == req
+//@   assert_call[C06,C01] inprocgrpc.Cloner.Copy : the_servers_own_copy_of_the_request_into_the_handlers_message: arg0 == cloner && arg1 == out && arg2 == reqCopy
 //@   modifies everything
 //
 //@ func (*inProcessClientStream).Context
